@@ -208,6 +208,29 @@ func run(cfg lib.Cfg) error {
 			base("growth-lognh-b5c2", "lognh", 5, 2, 9, 27, ts.Steps(1, 3)),
 		)
 	}
+	// corpus: the SECOND transaction of a step (COPY, position insert) fails again and again:
+	// one more failing step than the pool has connections, alternately at the COPY and at the
+	// position insert (rows already copied), then the faults stop.  Every failed step must
+	// have ended its transaction and returned its connection (tasksim: oracle on every
+	// returned Converge; a step that blocks for ever is cut off by the watchdog); the retries
+	// must not meet uncommitted rows of an abandoned transaction.
+	{
+		var acts []ts.Act
+		for i := 0; i <= ts.PoolMaxConns; i++ {
+			acts = append(acts, ts.Act{Do: "fault", Tid: 1, At: 4 + i%2, Kind: "error"}, ts.Act{Do: "step", Tid: 1})
+		}
+		acts = append(acts, ts.Act{Do: "clear"})
+		acts = append(acts, ts.Steps(1, 5)...)
+		sc := base("corpus-second-transaction-fails-repeatedly", "log", 2, 1, 6, 35, acts)
+		ref := *sc
+		ref.Acts = ts.Steps(1, 5)
+		want := ""
+		if refRun, err := ref.Exec(); err == nil {
+			want = finalOf(refRun)
+			refRun.Close()
+		}
+		judge(sc, "corpus-second-transaction-fails-repeatedly", want)
+	}
 	exhaustive := cfg.Thorough()
 	for _, b := range bases {
 		// fault-free reference run (with the retry tail, so that both runs end at quiescence)
